@@ -15,7 +15,7 @@ RULE = (
     '"integer + hostile value" (0, -0.0, 1, -1e-17, 1-1e-16, nextafter, denormals ...); input given unwrapped, '
     'wrapped, or as displacements + base positions; every case is evaluated twice: as generated and with '
     'independent per-coordinate integer shifts in [-3, 3]; accessors are queried in random order (in-place '
-    'representation switch).  Oracle: harness ground truth (the unwrapped walk).  Non-trivial = the walk crosses '
+    'representation switch); single frames are also read through traj[i] / get_structure(i) / iteration, on a never-queried object in half of the cases.  Oracle: harness ground truth (the unwrapped walk).  Non-trivial = the walk crosses '
     'a cell face or contains a hostile coordinate; distinct = SHA-1 of the input array.'
 )
 ASSUMPTIONS = [
